@@ -3,6 +3,7 @@ package main
 // Evaluation of contract expressions to SMT terms over a program state.
 
 import (
+	"os"
 	"fmt"
 	"go/constant"
 	"go/types"
@@ -23,6 +24,7 @@ type SpecEnv struct {
 	quant int
 	what  string
 	bound []string
+	pol   int // +1: the formula being built will be assumed and this position is positive
 }
 
 type specErr struct{ msg string }
@@ -31,6 +33,18 @@ func (e specErr) Error() string { return e.msg }
 
 func sfail(format string, args ...interface{}) {
 	panic(specErr{fmt.Sprintf(format, args...)})
+}
+
+func (env *SpecEnv) flip() *SpecEnv {
+	n := *env
+	n.pol = -env.pol
+	return &n
+}
+
+func (env *SpecEnv) nopol() *SpecEnv {
+	n := *env
+	n.pol = 0
+	return &n
 }
 
 func (env *SpecEnv) with(vars map[string]*Value) *SpecEnv {
@@ -58,6 +72,14 @@ func (env *SpecEnv) EvalBool(e Expr) (t Term, err error) {
 	}()
 	v := env.eval(e)
 	return env.asBool(v), nil
+}
+
+// EvalAssume evaluates a clause that is going to be assumed: positive sequence equalities also
+// yield equality of the normalised arrays (extensionality applied eagerly).
+func (env *SpecEnv) EvalAssume(e Expr) (Term, error) {
+	n := *env
+	n.pol = 1
+	return n.EvalBool(e)
 }
 
 func (env *SpecEnv) EvalInt(e Expr) (t Term, err error) {
@@ -143,6 +165,31 @@ func (env *SpecEnv) toSeq(v *Value) *SeqV {
 	}
 	x := env.x
 	if isString(v.T) {
+		// a string merged from two branches: keep the branches apart
+		var cond Term
+		split := false
+		a := &Value{T: v.T, C: append([]Term(nil), v.C...)}
+		b := &Value{T: v.T, C: append([]Term(nil), v.C...)}
+		okSplit := true
+		for j := range v.C {
+			if d, ok := x.iteDefs[v.C[j].S]; ok {
+				if split && d[0].S != cond.S {
+					okSplit = false
+					break
+				}
+				cond, split = d[0], true
+				a.C[j], b.C[j] = d[1], d[2]
+			}
+		}
+		if split && okSplit {
+			sa, sb := env.toSeq(a), env.toSeq(b)
+			cc := cond
+			return &SeqV{Len: v.C[2], At: func(i Term) Term { return Ite(cc, sa.At(i), sb.At(i)) }, IteC: cc, IteA: sa, IteB: sb}
+		}
+		// a string produced by concatenation/conversion: keep its symbolic structure
+		if m, ok := x.matSeq[v.C[0].S]; ok && v.C[1].S == "0" && v.C[2].S == m.Len.S {
+			return &SeqV{Len: m.Len, At: m.At, Arr: m.Arr, HasA: true, Row: m.Arr, Off: IntLit(0), HasRow: true}
+		}
 		return rowSeq(v.C[0], v.C[1], v.C[2])
 	}
 	switch u := v.T.Underlying().(type) {
@@ -150,8 +197,23 @@ func (env *SpecEnv) toSeq(v *Value) *SeqV {
 		if len(x.eng.layout(u.Elem())) != 1 {
 			sfail("sequence view of slice with composite elements %s", v.T)
 		}
+		if env.st == nil {
+			sfail("slice content without a program state")
+		}
+		if rec := env.st.content[v.C[0].S]; rec != nil {
+			if d, ok := litVal(Sub(v.C[1], rec.off)); ok && d.Sign() >= 0 {
+				if d.Sign() == 0 && v.C[2].S == rec.ln.S {
+					return rec.seq
+				}
+				at, dd := rec.seq.At, BigLit(d)
+				if rec.seq.HasRow {
+					return rowSeq(rec.seq.Row, Add(rec.seq.Off, dd), v.C[2])
+				}
+				return &SeqV{Len: v.C[2], At: func(i Term) Term { return at(Add(i, dd)) }}
+			}
+		}
 		key, _ := x.eng.heapKey("M", u.Elem(), 0)
-		row := x.ctx.Name("row", Select(x.heapGet(env.st, key), v.C[0]))
+		row := x.rowOf(x.heapGet(env.st, key), v.C[0])
 		return rowSeq(row, v.C[1], v.C[2])
 	case *types.Array:
 		if len(x.eng.layout(u.Elem())) != 1 {
@@ -182,8 +244,13 @@ func (env *SpecEnv) materialise(s *SeqV) (Term, Term) {
 	if s.HasA {
 		return s.Arr, s.Len
 	}
+	if s.IteA != nil {
+		aa, al := env.materialise(s.IteA)
+		ba, bl := env.materialise(s.IteB)
+		return Ite(s.IteC, aa, ba), Ite(s.IteC, al, bl)
+	}
 	if env.quant > 0 {
-		probe := s.Len.S + "|" + s.At(Term{"$i", SInt}).S
+		probe := s.Len.S + "|" + s.At(Term{S: "$i", Sort: SInt}).S
 		for _, bn := range env.bound {
 			if strings.Contains(probe, bn) {
 				sfail("cannot pass a sequence that depends on a bound variable to an uninterpreted function")
@@ -191,7 +258,7 @@ func (env *SpecEnv) materialise(s *SeqV) (Term, Term) {
 		}
 	}
 	c := env.x.ctx
-	key := "mat|" + s.Len.S + "|" + s.At(Term{"$i", SInt}).S
+	key := "mat|" + s.Len.S + "|" + s.At(Term{S: "$i", Sort: SInt}).S
 	if t, ok := c.named[key]; ok {
 		s.Arr, s.HasA = t, true
 		if !s.HasRow {
@@ -200,15 +267,31 @@ func (env *SpecEnv) materialise(s *SeqV) (Term, Term) {
 		return t, s.Len
 	}
 	n := c.Fresh("seq", SArr)
-	i := Term{"i$m", SInt}
+	i := Term{S: "i$m", Sort: SInt}
 	body := Eq(Select(n, i), Ite(And(Le(IntLit(0), i), Lt(i, s.Len)), s.At(i), IntLit(0)))
 	c.Assume(Forall([]Term{i}, body, Select(n, i)))
 	c.named[key] = n
+	env.x.matSeq[n.S] = &SeqV{Len: s.Len, At: s.At, Arr: n, HasA: true, Row: n, Off: IntLit(0), HasRow: true}
 	s.Arr, s.HasA = n, true
 	if !s.HasRow {
 		s.Row, s.Off, s.HasRow = n, IntLit(0), true
 	}
 	return n, s.Len
+}
+
+func (env *SpecEnv) tryMaterialise(a, b *SeqV) (ma, mb Term, ok bool) {
+	defer func() {
+		if r := recover(); r != nil {
+			if _, isSpec := r.(specErr); isSpec {
+				ok = false
+				return
+			}
+			panic(r)
+		}
+	}()
+	ma, _ = env.materialise(a)
+	mb, _ = env.materialise(b)
+	return ma, mb, true
 }
 
 func (env *SpecEnv) seqEq(a, b *SeqV) Term {
@@ -239,19 +322,19 @@ func (env *SpecEnv) seqEq(a, b *SeqV) Term {
 	// plain (select row j): arithmetic inside triggers does not e-match reliably
 	if a.HasRow {
 		c.n++
-		j := Term{fmt.Sprintf("j$%d", c.n), SInt}
+		j := Term{S: fmt.Sprintf("j$%d", c.n), Sort: SInt}
 		rel := Sub(j, a.Off)
 		parts = append(parts, Forall([]Term{j}, Implies(And(Le(a.Off, j), Lt(j, Add(a.Off, a.Len))), Eq(Select(a.Row, j), b.At(rel))), Select(a.Row, j)))
 	}
 	if b.HasRow && !(a.HasRow && a.Row.S == b.Row.S && a.Off.S == b.Off.S) {
 		c.n++
-		j := Term{fmt.Sprintf("j$%d", c.n), SInt}
+		j := Term{S: fmt.Sprintf("j$%d", c.n), Sort: SInt}
 		rel := Sub(j, b.Off)
 		parts = append(parts, Forall([]Term{j}, Implies(And(Le(b.Off, j), Lt(j, Add(b.Off, b.Len))), Eq(a.At(rel), Select(b.Row, j))), Select(b.Row, j)))
 	}
 	if len(parts) == 0 {
 		c.n++
-		i := Term{fmt.Sprintf("k$%d", c.n), SInt}
+		i := Term{S: fmt.Sprintf("k$%d", c.n), Sort: SInt}
 		parts = append(parts, Forall([]Term{i}, Implies(And(Le(IntLit(0), i), Lt(i, a.Len)), Eq(a.At(i), b.At(i)))))
 	}
 	return And(append([]Term{Eq(a.Len, b.Len)}, parts...)...)
@@ -273,7 +356,7 @@ func (env *SpecEnv) eval(e Expr) *Value {
 		v := env.eval(n.X)
 		switch n.Op {
 		case "!":
-			return mkBool(Not(env.asBool(v)))
+			return mkBool(Not(env.asBool(env.flip().eval(n.X))))
 		case "-":
 			return mkInt(Neg(env.asInt(v)))
 		case "*":
@@ -287,7 +370,7 @@ func (env *SpecEnv) eval(e Expr) *Value {
 			return v
 		}
 	case *ECond:
-		c := env.asBool(env.eval(n.C))
+		c := env.asBool(env.nopol().eval(n.C))
 		a, b := env.eval(n.A), env.eval(n.B)
 		return env.ite(c, a, b)
 	case *EBin:
@@ -558,18 +641,29 @@ func (env *SpecEnv) bin(n *EBin) *Value {
 		}
 		return mkBool(Or(a, env.asBool(env.eval(n.Y))))
 	case "==>":
-		a := env.asBool(env.eval(n.X))
+		a := env.asBool(env.flip().eval(n.X))
 		if a.S == "false" {
 			return mkBool(TTrue)
 		}
 		return mkBool(Implies(a, env.asBool(env.eval(n.Y))))
 	case "<==>":
-		return mkBool(Iff(env.asBool(env.eval(n.X)), env.asBool(env.eval(n.Y))))
+		return mkBool(Iff(env.asBool(env.nopol().eval(n.X)), env.asBool(env.nopol().eval(n.Y))))
+	}
+	if n.Op == "==" || n.Op == "!=" {
+		env = env.nopol()
 	}
 	a, b := env.eval(n.X), env.eval(n.Y)
 	switch n.Op {
 	case "===":
-		return mkBool(env.seqEq(env.toSeq(a), env.toSeq(b)))
+		sa, sb := env.toSeq(a), env.toSeq(b)
+		t := env.seqEq(sa, sb)
+		if env.pol > 0 && env.quant == 0 && t.S != "true" && os.Getenv("GVC_NOEXT") == "" {
+			// eager extensionality: equal contents give equal normalised arrays
+			if ma, mb, ok := env.tryMaterialise(sa, sb); ok {
+				t = And(t, Eq(ma, mb))
+			}
+		}
+		return mkBool(t)
 	case "!==":
 		return mkBool(Not(env.seqEq(env.toSeq(a), env.toSeq(b))))
 	case "==":
@@ -664,16 +758,16 @@ func (env *SpecEnv) quantExpr(n *EQuant) *Value {
 		}
 		switch typ {
 		case "int":
-			bv := Term{fmt.Sprintf("%s$%d", name, env.x.ctx.n), SInt}
+			bv := Term{S: fmt.Sprintf("%s$%d", name, env.x.ctx.n), Sort: SInt}
 			bvs = append(bvs, bv)
 			vars[name] = mkInt(bv)
 		case "bool":
-			bv := Term{fmt.Sprintf("%s$%d", name, env.x.ctx.n), SBool}
+			bv := Term{S: fmt.Sprintf("%s$%d", name, env.x.ctx.n), Sort: SBool}
 			bvs = append(bvs, bv)
 			vars[name] = mkBool(bv)
 		case "seq":
-			a := Term{fmt.Sprintf("%s$a%d", name, env.x.ctx.n), SArr}
-			l := Term{fmt.Sprintf("%s$l%d", name, env.x.ctx.n), SInt}
+			a := Term{S: fmt.Sprintf("%s$a%d", name, env.x.ctx.n), Sort: SArr}
+			l := Term{S: fmt.Sprintf("%s$l%d", name, env.x.ctx.n), Sort: SInt}
 			bvs = append(bvs, a, l)
 			guards = append(guards, Le(IntLit(0), l))
 			vars[name] = seqVal(arrSeq(a, l))
@@ -792,9 +886,18 @@ func (env *SpecEnv) call(n *ECall) *Value {
 		return mkBool(Eq(v.C[0], IntLit(int64(x.eng.typeID(t)))))
 	case "ref":
 		v := env.eval(n.Args[0])
+		if v.T != nil && isIface(v.T) {
+			return mkInt(v.C[1])
+		}
 		return mkInt(v.C[0])
 	case "content":
 		return env.eval(n.Args[0])
+	case "seqid":
+		// the two sequences are one and the same (trusted specs of ghost attributes)
+		sa, sb := env.toSeq(env.eval(n.Args[0])), env.toSeq(env.eval(n.Args[1]))
+		ma, la := env.materialise(sa)
+		mb, lb := env.materialise(sb)
+		return mkBool(And(Eq(ma, mb), Eq(la, lb)))
 	case "rd":
 		// remaining stream of a reader (interface value or *bytes.Buffer / *bytes.Reader)
 		v := env.eval(n.Args[0])
@@ -886,7 +989,7 @@ func (env *SpecEnv) applySpec(sf *SpecFunc, args []*Value) *Value {
 		for i, p := range sf.Params {
 			vars[p.Name] = env.coerce(args[i], p.Type, sf.Name)
 		}
-		sub := &SpecEnv{x: x, vars: vars, st: env.st, old: env.old, fn: env.fn, quant: env.quant}
+		sub := &SpecEnv{x: x, vars: vars, st: env.st, old: env.old, fn: env.fn, quant: env.quant, bound: env.bound}
 		return sub.coerce(sub.eval(sf.Body), sf.Result, sf.Name)
 	}
 	// SMT-level function
@@ -931,12 +1034,27 @@ func (env *SpecEnv) coerce(v *Value, typ string, fn string) *Value {
 		if v.SK == "nil" {
 			return mkInt(IntLit(0))
 		}
+		if v.T != nil && isIface(v.T) {
+			return mkInt(v.C[1]) // the object behind the interface
+		}
 		return mkInt(v.C[0])
 	case "", "any":
 		return v
 	}
 	// a Go type name: keep value as is
 	return v
+}
+
+func (x *Exec) revealed(name string) bool {
+	if x.cur == nil || x.cur.fc == nil {
+		return false
+	}
+	for _, r := range x.cur.fc.Reveals {
+		if r == name {
+			return true
+		}
+	}
+	return false
 }
 
 // declareSpec emits the SMT declaration/definition of a spec function once per context.
@@ -955,13 +1073,13 @@ func (x *Exec) declareSpec(sf *SpecFunc) {
 			panic(specErr{fmt.Sprintf("spec func %s: parameter %s has unsupported type %q for an SMT-level function", sf.Name, p.Name, p.Type)})
 		}
 		if p.Type == "seq" {
-			a := Term{p.Name + "$a", SArr}
-			l := Term{p.Name + "$l", SInt}
+			a := Term{S: p.Name + "$a", Sort: SArr}
+			l := Term{S: p.Name + "$l", Sort: SInt}
 			pdecl = append(pdecl, fmt.Sprintf("(%s %s) (%s Int)", a.S, SArr, l.S))
 			psorts = append(psorts, string(SArr), "Int")
 			vars[p.Name] = seqVal(arrSeq(a, l))
 		} else {
-			t := Term{p.Name + "$p", ss[0]}
+			t := Term{S: p.Name + "$p", Sort: ss[0]}
 			pdecl = append(pdecl, fmt.Sprintf("(%s %s)", t.S, ss[0]))
 			psorts = append(psorts, string(ss[0]))
 			if ss[0] == SBool {
@@ -972,11 +1090,30 @@ func (x *Exec) declareSpec(sf *SpecFunc) {
 		}
 	}
 	if sf.Body == nil {
+		defer x.releaseAxioms()
 		x.ctx.Trust("uninterpreted spec function " + sf.Name)
 		switch sf.Result {
 		case "seq":
 			x.ctx.Raw(fmt.Sprintf("(declare-fun %s$arr (%s) %s)", sf.Name, strings.Join(psorts, " "), SArr))
 			x.ctx.Raw(fmt.Sprintf("(declare-fun %s$len (%s) Int)", sf.Name, strings.Join(psorts, " ")))
+			// results are normalised sequences: non-negative length, zero outside [0, len)
+			var bvs, args []string
+			for i, ps := range psorts {
+				bvs = append(bvs, fmt.Sprintf("(u$%d %s)", i, ps))
+				args = append(args, fmt.Sprintf("u$%d", i))
+			}
+			app := sf.Name + "$arr"
+			appl := sf.Name + "$len"
+			if len(args) > 0 {
+				app = "(" + app + " " + strings.Join(args, " ") + ")"
+				appl = "(" + appl + " " + strings.Join(args, " ") + ")"
+			}
+			x.ctx.Raw(fmt.Sprintf("(assert (forall (%s (i$n Int)) (! (=> (or (< i$n 0) (>= i$n %s)) (= (select %s i$n) 0)) :pattern ((select %s i$n)))))", strings.Join(bvs, " "), appl, app, app))
+			if len(args) > 0 {
+				x.ctx.Raw(fmt.Sprintf("(assert (forall (%s) (! (<= 0 %s) :pattern (%s))))", strings.Join(bvs, " "), appl, appl))
+			} else {
+				x.ctx.Raw(fmt.Sprintf("(assert (<= 0 %s))", appl))
+			}
 		case "bool":
 			x.ctx.Raw(fmt.Sprintf("(declare-fun %s (%s) Bool)", sf.Name, strings.Join(psorts, " ")))
 		default:
@@ -986,6 +1123,14 @@ func (x *Exec) declareSpec(sf *SpecFunc) {
 	}
 	if sf.Result == "seq" {
 		panic(specErr{fmt.Sprintf("spec func %s: recursive/opaque sequence-valued functions are not supported", sf.Name)})
+	}
+	if sf.Opaque && !x.revealed(sf.Name) {
+		rs0 := "Int"
+		if sf.Result == "bool" {
+			rs0 = "Bool"
+		}
+		x.ctx.Raw(fmt.Sprintf("(declare-fun %s (%s) %s)", sf.Name, strings.Join(psorts, " "), rs0))
+		return
 	}
 	// make sure callees are declared first
 	walkExpr(sf.Body, func(e Expr) {
